@@ -1,0 +1,44 @@
+//go:build verif
+
+// Contracts for the deductive checks in /verif (comment-only; not part of normal builds).
+
+package mongodb
+
+// A datatype document as the service layer relies on it.
+//@ pred docWF(d *schema.DatatypeDoc) = d.RWClients != nil && d.ROClients != nil && (forall c string :: (c in d.RWClients ==> d.RWClients[c] != nil && d.RWClients[c].CP != nil) && (c in d.ROClients ==> d.ROClients[c] != nil && d.ROClients[c].CP != nil))
+
+// Repository methods used by the push-pull handler. Trusted at this level: each wraps one
+// MongoDB driver command (FindOne/Find/InsertMany/UpdateOne) and decodes BSON; the filter
+// construction inside them is under contract separately (C17).
+//@ func (*MongoCollections).GetDatatypeByKey
+//@   trusted MongoDB FindOne with filter {colNum, key} + BSON decode
+//@   mode math
+//@   ensures result1 != nil ==> result0 == nil
+//@   ensures result0 != nil ==> fresh(result0) && result0.Key == key && result0.CollectionNum == collectionNum && docWF(result0)
+//@   modifies schema.DatatypeDoc.*, schema.SubscribedClientDoc.*, map[string]*schema.SubscribedClientDoc, alloc
+
+//@ func (*MongoCollections).GetDatatype
+//@   trusted MongoDB FindOne with filter {_id} + BSON decode
+//@   mode math
+//@   ensures result1 != nil ==> result0 == nil
+//@   ensures result0 != nil ==> fresh(result0) && result0.DUID == duid && docWF(result0)
+//@   modifies schema.DatatypeDoc.*, schema.SubscribedClientDoc.*, map[string]*schema.SubscribedClientDoc, alloc
+
+//@ func (*MongoCollections).GetOperations
+//@   trusted MongoDB Find {duid, sseq >= from [, <= to]} sorted by sseq ascending + BSON decode
+//@   mode math
+//@   ensures result2 != nil ==> len(result0) == 0 && len(result1) == 0
+//@   ensures len(result0) == len(result1)
+//@   ensures forall i int :: 0 <= i && i < len(result0) ==> result0[i] != nil && result0[i].ID != nil && result1[i] >= from
+//@   ensures forall i int, j int :: 0 <= i && i < j && j < len(result1) ==> result1[i] < result1[j]
+//@   modifies alloc
+
+//@ func (*MongoCollections).InsertOperations
+//@   trusted MongoDB InsertMany
+//@   mode math
+//@   modifies nothing
+
+//@ func (*MongoCollections).UpdateDatatype
+//@   trusted MongoDB UpdateOne(upsert) of the datatype document
+//@   mode math
+//@   modifies nothing
